@@ -59,7 +59,7 @@ type c09Table struct {
 }
 
 func runC09(r *core.Run) {
-	L2 := core.Pick(r, 5, 7)
+	L2 := core.Pick(r, 5, 8)
 	bruteMax := core.Pick(r, 3, 4)
 	r.Bound("pairs", fmt.Sprintf("all ordered pairs over {A,B}^<=%d and {A,B,C}^<=%d; Levenshtein over {a,b,c}^<=%d; shipped over {A,R,W,X}^<=%d", L2, core.Pick(r, 3, 5), core.Pick(r, 4, 5), core.Pick(r, 3, 4)))
 	r.Bound("reference", fmt.Sprintf("brute-force enumeration of all alignments when both lengths <= %d (Gotoh DP must agree there, else harness error); Gotoh beyond", bruteMax))
@@ -187,7 +187,7 @@ func matrixAlphabet(m align.SubstitutionMatrix) []byte {
 }
 
 func runC10(r *core.Run) {
-	L2 := core.Pick(r, 6, 7)
+	L2 := core.Pick(r, 6, 8)
 	bruteMax := core.Pick(r, 3, 4)
 	r.Bound("pairs", fmt.Sprintf("all ordered pairs over {A,B}^<=%d and {A,B,C}^<=%d", L2, core.Pick(r, 3, 5)))
 	r.Bound("reference", fmt.Sprintf("brute-force enumeration of all alignments when both lengths <= %d (Gotoh DP must agree there, else harness error); Gotoh beyond", bruteMax))
